@@ -127,6 +127,18 @@ def nextNet : P (Net GI) := do
     let shape := if isP then cp else sq cp
     let a ← nextGIs (prodL shape)
     pure (freeze (mkNet (fun k => a.getD k 0) cp (some (combSysIn cp.length)) isP))
+  | "B" =>
+    -- QuantumComb(tensor, partition, pure=…)
+    let isP := (← nextNat) != 0
+    let n ← nextNat; let part ← nextNats n; let _ ← nextSys n
+    let shape := if isP then part else sq part
+    let a ← nextGIs (prodL shape)
+    pure (freeze (mkNet (fun k => a.getD k 0) part (some (combSysIn n)) isP))
+  | "S" =>
+    -- QuantumChannel.from_operator(ρ): the state network
+    let d ← nextNat
+    let a ← nextGIs (d * d)
+    pure (freeze (stateNet (matOfArr d a) d))
   | "I" =>
     let d ← nextNat
     pure (freeze (identityChannel d))
@@ -208,6 +220,16 @@ def handle : P String := do
     match matmul GI.conj Af Bf with
     | none => pure "none"
     | some N => pure (dump N)
+  | "PRED" =>
+    -- is_hermitian, is_causal (even number of legs), is_unital (two legs)
+    let N ← nextNet
+    let Nf : Net GI := { freeze (fullNet GI.conj N) with pure := N.pure }
+    -- predicates are evaluated on the frozen full tensor; `pure` only matters for is_hermitian
+    let Nfull : Net GI := { Nf with pure := false }
+    let h := N.pure || isHermitian GI.conj Nfull
+    let c := if N.part.length % 2 == 0 then (if isCausal GI.conj Nfull then "1" else "0") else "-"
+    let u := if N.part.length == 2 then (if isUnital GI.conj Nfull then "1" else "0") else "-"
+    pure s!"{if h then 1 else 0} {c} {u}"
   | "ADD" =>
     let A ← nextNet
     let B ← nextNet
